@@ -136,7 +136,7 @@ def gen_plan(prop, run_seed, tier):
         k = s.choice(kinds)
         ops.append(dict(kind=k, seed=s.randrange(2**31), wseed=w.randrange(2**31), eA=s.randrange(2**31), eB=s.randrange(2**31),
                         draws=s.choice([0, 1, 5, 50]), advance=s.choice([0, 0, 3])))
-    return dict(engine="twinsim", prop=prop, steps=ops, fresh_twin=(tier == "thorough" and s.random() < 0.08))
+    return dict(engine="twinsim", prop=prop, steps=ops, fresh_twin=(s.random() < (0.3 if tier == "quick" else 0.25)), fresh_all=(tier == "thorough"))
 
 
 # ============================================================================ execution
@@ -759,11 +759,13 @@ def _run_op(op, scratch, seed_override=None):
         src = scratch.file("in.h5")
         scr.save_h5(src)
         args = []
-        g = w.choice([None, "PlatePermutationPlateGenerator", "SampleSegregatingPermutationPlateGenerator"])
+        g = w.choice([None, "PlatePermutationPlateGenerator", "SampleSegregatingPermutationPlateGenerator", "PairwisePlateGenerator"])
         if g:
             args += ["--plate-generator", g]
             if g.startswith("SampleSeg"):
                 args += ["--plate-generator-param", f"max_plate_size={w.randint(2, 4)}"]
+            if g.startswith("Pairwise"):
+                args += ["--plate-generator-param", f"subset_size={w.randint(1, 2)}", "--plate-generator-param", "anchor_size=0"]
         if w.random() < 0.5:
             args += ["--initial-plate-generator", "SparseCoverPlateGenerator", "--initial-plate-generator-param",
                      f"reveal_single_treatment_experiments={w.choice(['true', 'false'])}"]
@@ -915,33 +917,41 @@ def _c18(plan, scratch, log, stats, violation):
 
 
 def _fresh_twins(plan, scratch, log, stats, violation):
-    """fault hashseed.change: the second twin runs in a fresh interpreter under another
-    PYTHONHASHSEED (and therefore other set/dict-of-str iteration orders)."""
+    """fault hashseed.change: the second twin of every operation of this run is executed in ONE fresh
+    interpreter under another PYTHONHASHSEED (and therefore other set / dict-of-str iteration orders)."""
     import subprocess
 
     here = os.path.dirname(os.path.dirname(os.path.abspath(__file__)))
-    for i, op in enumerate(plan["steps"]):
+    outs = []
+    steps = plan["steps"] if plan.get("fresh_all") else [op for op in plan["steps"] if op["kind"].startswith("f:")]
+    if not steps:
+        return  # quick tier: only function-level operations get the fresh-interpreter twin (no torch import)
+    for op in steps:
+        _purge_batchie_modules()
         try:
-            outA, _, _ = _twin(op, scratch, op["eA"], 0)
+            outs.append(_j(_twin(op, scratch, op["eA"], 0)[0]))
         except Exception:
+            outs.append(None)
+    env = dict(os.environ)
+    env["PYTHONHASHSEED"] = str(1 + (steps[0]["eB"] % 4000))
+    code = ("import sys, json; sys.path.insert(0, %r); from engines import twinsim; "
+            "print('FRESH ' + json.dumps(twinsim.fresh_main(json.loads(sys.stdin.read()))))" % here)
+    p = subprocess.run([sys.executable, "-c", code], input=json.dumps(steps), capture_output=True, text=True, env=env, timeout=900)
+    got = None
+    for line in p.stdout.splitlines():
+        if line.startswith("FRESH "):
+            got = json.loads(line[6:])
+    if got is None:
+        raise pipe.HarnessError(f"fresh twin produced no result: {p.stdout[-500:]} {p.stderr[-1500:]}")
+    for i, (op, a, g) in enumerate(zip(steps, outs, got)):
+        if a is None:
             continue
-        env = dict(os.environ)
-        env["PYTHONHASHSEED"] = str(1 + (op["eB"] % 4000))
-        code = ("import sys, json; sys.path.insert(0, %r); from engines import twinsim; "
-                "print('FRESH ' + json.dumps(twinsim.fresh_main(json.loads(sys.stdin.read()))))" % here)
-        p = subprocess.run([sys.executable, "-c", code], input=json.dumps(op), capture_output=True, text=True, env=env, timeout=600)
-        got = None
-        for line in p.stdout.splitlines():
-            if line.startswith("FRESH "):
-                got = json.loads(line[6:])
-        if got is None:
-            raise pipe.HarnessError(f"fresh twin produced no result: {p.stdout[-500:]} {p.stderr[-1500:]}")
         stats.fault("hashseed.change")
         stats.oracle_evals += 1
-        log.ev("fresh", i, op["kind"], got.get("out") == _j(outA))
-        if got.get("error"):
-            violation("C18.twin-output", f"{op['kind']}|fresh-interpreter-raised", f"{op['kind']}: fresh-interpreter twin raised {got['error']}")
-        elif got["out"] != _j(outA):
+        log.ev("fresh", i, op["kind"], g.get("out") == a)
+        if g.get("error"):
+            violation("C18.twin-output", f"{op['kind']}|fresh-interpreter-raised", f"{op['kind']}: fresh-interpreter twin raised {g['error']}")
+        elif g["out"] != a:
             violation("C18.twin-output", f"{op['kind']}|fresh-interpreter:hashseed",
                       f"{op['kind']}: identical inputs and seed but different output in a fresh interpreter under PYTHONHASHSEED={env['PYTHONHASHSEED']}")
 
@@ -950,35 +960,18 @@ def _j(x):
     return json.loads(json.dumps(x))
 
 
-def fresh_main(op):
+def fresh_main(ops):
     launch.quiet()
-    if op["kind"].startswith("p:"):
+    if any(op["kind"].startswith("p:") for op in ops):
         launch.preload_cli()
     np.seterr(all="ignore")
+    res = []
     with Scratch("fresh") as scratch:
-        try:
-            out, _, _ = _twin(op, scratch, op["eB"], op["draws"])
-        except Exception as e:
-            return dict(error=repr(e))
-    return dict(out=_j(out))
-
-
-def reducers(prop, plan):
-    if prop == "C04":
-        if plan["n_chains"] > 1:
-            cand = json.loads(json.dumps(plan))
-            cand["n_chains"] = 1
-            yield cand
-        for key in ("dist_chunks", "score_chunks"):
-            if plan[key] > 1:
-                cand = json.loads(json.dumps(plan))
-                cand[key] = 1
-                yield cand
-        if plan["batch"]:
-            cand = json.loads(json.dumps(plan))
-            cand["batch"] = False
-            yield cand
-        if plan["scorer"] != "SizeScorer":
-            cand = json.loads(json.dumps(plan))
-            cand["scorer"] = "SizeScorer"
-            yield cand
+        for op in ops:
+            _purge_batchie_modules()
+            try:
+                out, _, _ = _twin(op, scratch, op["eA"], 0)
+                res.append(dict(out=_j(out)))
+            except Exception as e:
+                res.append(dict(error=repr(e)))
+    return res
